@@ -258,6 +258,15 @@ def _desugar_fn_values(facts):
 
     def visit(n):
         if isinstance(n, dict):
+            # `cond.then_some(v)`  ==>  `cond.then(|| v)` (v is evaluated eagerly, which no rule depends on)
+            if n.get("k") == "MethodCall" and n.get("method") == "then_some" and len(n.get("args", [])) == 1:
+                r1 = n["recv"]
+                while isinstance(r1, dict) and r1.get("k") in ("DropTemps", "Use"):
+                    r1 = r1["x"]
+                if isinstance(r1, dict) and r1.get("ty") == "bool":
+                    v_ = n["args"][0]
+                    n["method"] = "then"
+                    n["args"] = [{"id": fresh(), "sp": n["sp"], "ty": "closure", "k": "Closure", "def": "synthetic", "params": [], "body": v_, "synthetic": True}]
             # `cond.then(|| body)`  ==>  `if cond { Some(body) } else { None }`
             if n.get("k") == "MethodCall" and n.get("method") == "then" and len(n.get("args", [])) == 1:
                 rv = n["recv"]
